@@ -2,7 +2,9 @@ package main
 
 import (
 	"fmt"
+	"go/token"
 	"go/types"
+	"sort"
 	"strings"
 
 	"golang.org/x/tools/go/ssa"
@@ -43,12 +45,13 @@ func ownWriteEdges(c *Ctx, fn *ssa.Function) (isOwn, notOwn []Edge) {
 }
 
 func checkC09(c *Ctx, r *Report) {
-	r.Explain = "Decides structural necessary conditions of 'external writes imported once, own writes never': (R1) every on-demand and feed import is issued only on the edge where the own-write predicate (IsSGWrite family) is false for that document (or no sync metadata exists); (R2) the import's update callback re-evaluates the predicate on the freshly loaded document inside the CAS loop and cancels with 'already imported' on the own-write edge before mutating anything; (R3) the three sibling implementations of the own-write predicate agree on every valuation of their shared atoms (CAS equal, body CRC equal, user-xattr changed, stored CV present, CV extraction outcome, CV equal, delete marker); (R4) the caching feed forwards a document mutation to the change cache only on the own-write edge (with the ambiguous xattr-only answer resolved by the body CRC of the same CAS); (R5) only the listed write paths stamp _sync.cas by macro expansion (a metadata rewrite that does not check who wrote the body must not claim the body), and feed-triggered metadata rewrites use the CAS of the event that triggered them. Not decided: parent/generation of the imported revision, redelivery idempotence as a whole, _mou bookkeeping values."
+	r.Explain = "Decides structural necessary conditions of 'external writes imported once, own writes never': (R1) every on-demand and feed import is issued only on the edge where the own-write predicate (IsSGWrite family) is false for that document (or no sync metadata exists); (R2) the import's update callback re-evaluates the predicate on the freshly loaded document inside the CAS loop and cancels with 'already imported' on the own-write edge before mutating anything; (R3) the three sibling implementations of the own-write predicate agree on every valuation of their shared atoms (CAS equal, body CRC equal, user-xattr changed, stored CV present, CV extraction outcome, CV equal, delete marker); (R4) the caching feed forwards a document mutation to the change cache only on the own-write edge (with the ambiguous xattr-only answer resolved by the body CRC of the same CAS); (R5) only the listed write paths stamp _sync.cas by macro expansion (a metadata rewrite that does not check who wrote the body must not claim the body), and feed-triggered metadata rewrites use the CAS of the event that triggered them. every function that hands the sync xattr to the bucket stamps _sync.cas unless it is a listed metadata-only rewrite; (R6) an on-demand import that lost the CAS race re-reads its input (body and bucket document) from the freshly loaded document before using it again. Not decided: parent/generation of the imported revision, redelivery idempotence as a whole, _mou bookkeeping values."
 	c09R1(c, r)
 	c09R2(c, r)
 	c09R3(c, r)
 	c09R4(c, r)
 	c09R5(c, r)
+	c09R6(c, r)
 }
 
 func c09R1(c *Ctx, r *Report) {
@@ -258,6 +261,66 @@ func c09R5(c *Ctx, r *Report) {
 				"listed writer (owns or verified the body)", "a metadata rewrite that does not establish who wrote the body stamps _sync.cas: a pending external body would afterwards be classified as the gateway's own write and never imported")
 		}
 	}
+	// the converse: every function that hands the sync xattr to the bucket also stamps _sync.cas — otherwise the gateway's own
+	// rewrite moves the document's CAS away from the recorded one and is imported as if it were an external write — except the
+	// listed metadata-only rewrites, which deliberately stamp _mou.cas instead so as not to claim a body they did not check.
+	metadataOnly := map[string]string{
+		"(*db.DatabaseCollectionWithUser).ResyncDocument": "resync rewrites channels/grants only; it stamps _mou.cas (metadata-only update marker) and must not claim the body (seed C09-A of round 1)",
+	}
+	writers := c09SyncXattrWriters(c)
+	var wn []string
+	byName := map[string]*ssa.Function{}
+	for f := range writers {
+		wn = append(wn, c.FuncName(f))
+		byName[c.FuncName(f)] = f
+	}
+	sort.Strings(wn)
+	for _, name := range wn {
+		f := byName[name]
+		stampsIn := func(h *ssa.Function) bool {
+			for _, g := range append([]*ssa.Function{h}, c15Lits(h)...) {
+				for _, call := range c.CallsThroughHelpers(g, 1, nameIs("db.xattrCasPath", "db.macroExpandSpec")) {
+					if a := call.Common().Args; len(a) > 0 {
+						if s, ok := constString(a[0]); ok && s == "_sync" {
+							return true
+						}
+					}
+				}
+			}
+			return false
+		}
+		stamps := stampsIn(f)
+		if !stamps {
+			// the mutate-in options (and with them the macro expansions) may be supplied by the callers
+			takesOpts := false
+			for _, prm := range f.Params {
+				if namedOf(prm.Type()) == "MutateInOptions" {
+					takesOpts = true
+				}
+			}
+			if takesOpts {
+				callers, all := 0, true
+				for _, g := range c.ScopeFuncs() {
+					if len(c.Calls(g, false, nameIs(name))) > 0 {
+						callers++
+						if !stampsIn(TopLevel(g)) {
+							all = false
+						}
+					}
+				}
+				stamps = callers > 0 && all
+			}
+		}
+		mouOnly := false
+		if _, listed := metadataOnly[name]; listed {
+			mouOnly = len(c.CallsThroughHelpers(f, 1, nameIs("db.XattrMouCasPath"))) > 0
+		}
+		r.Check("C09-R5", "fn="+name+" writes=_sync stamps=_sync.cas|listed-metadata-only", c.Pos(writers[f].Pos()), stamps || mouOnly,
+			"the gateway's rewrite of its own metadata records the CAS it produces", "this function rewrites the document's sync metadata without recording the resulting CAS in _sync.cas (and is not a listed metadata-only rewrite): the gateway's own write is afterwards classified as an external write and imported as a new revision")
+	}
+	if len(wn) < 3 {
+		r.Fail("C09-R5", "sync-xattr writers", "-", fmt.Sprintf("only %d functions found that hand the sync xattr to the bucket", len(wn)))
+	}
 	// event CAS: feed-triggered rewrites
 	for _, name := range []string{"(*db.DatabaseCollectionWithUser).MigrateAttachmentMetadata"} {
 		fn := c.Func(name)
@@ -283,3 +346,164 @@ func c09PrecheckedOwn(c *Ctx, fn *ssa.Function) bool {
 	return len(c.Calls(fn, true, nameIs("(*db.SyncData).GetSyncCas"))) > 0 || len(c.Calls(fn, true, sgWriteFns)) > 0
 }
 
+
+// c09SyncXattrWriters: top-level functions of package db that put the sync xattr ("_sync") into an xattr map handed to the bucket.
+func c09SyncXattrWriters(c *Ctx) map[*ssa.Function]ssa.Instruction {
+	out := map[*ssa.Function]ssa.Instruction{}
+	for _, fn := range c.ScopeFuncs() {
+		if fn.Pkg == nil || fn.Pkg.Pkg.Name() != "db" {
+			continue
+		}
+		EachInstr(fn, false, func(in ssa.Instruction) {
+			mu, ok := in.(*ssa.MapUpdate)
+			if !ok {
+				return
+			}
+			if k, isK := constString(unwrap(mu.Key)); !isK || k != "_sync" {
+				return
+			}
+			mt, ok := mu.Map.Type().Underlying().(*types.Map)
+			if !ok {
+				return
+			}
+			if sl, ok := mt.Elem().Underlying().(*types.Slice); !ok || !types.Identical(sl.Elem(), types.Typ[types.Byte]) {
+				return
+			}
+			// handed to the bucket: the map is an argument of a storage write or becomes the Xattrs of an sgbucket.UpdatedDoc
+			handed := false
+			if refs := mu.Map.Referrers(); refs != nil {
+				for _, rf := range *refs {
+					switch u := rf.(type) {
+					case ssa.CallInstruction:
+						if u.Common().IsInvoke() {
+							handed = true
+						}
+					case *ssa.Store:
+						if fa, ok := u.Addr.(*ssa.FieldAddr); ok && namedOf(fa.X.Type()) == "UpdatedDoc" {
+							handed = true
+						}
+					}
+				}
+			}
+			if !handed {
+				return
+			}
+			top := TopLevel(fn)
+			if _, have := out[top]; !have {
+				out[top] = in
+			}
+		})
+	}
+	return out
+}
+
+// C09-R6: an on-demand import that loses the CAS race re-imports the *current* state of the document: inside the import's CAS
+// callback, on the CAS-mismatch / on-demand edge, the captured import input (the body the import filter and the sync function see)
+// is re-assigned from the freshly loaded document before it is used again, together with the captured bucket document.
+func c09R6(c *Ctx, r *Report) {
+	r.Rule("C09-R6", "E2 pathrules on captured cells", "importDoc's callback: on the CAS-mismatch on-demand edge the captured body is re-assigned from the callback's document before any further use, and the captured bucket document is re-assigned too", 2)
+	top := c.Func("(*db.DatabaseCollectionWithUser).importDoc")
+	if top == nil {
+		r.Fail("C09-R6", "anchor importDoc", "-", "function not found")
+		return
+	}
+	var lit *ssa.Function
+	for l := range retryCallbacks(c) {
+		if TopLevel(l) == top {
+			lit = l
+		}
+	}
+	if lit == nil || len(lit.Params) == 0 {
+		r.Fail("C09-R6", "anchor importDoc callback", c.Pos(top.Pos()), "the import's update callback was not found")
+		return
+	}
+	docParam := lit.Params[0]
+	var bodyFV, existingFV *ssa.FreeVar
+	for _, fv := range lit.FreeVars {
+		pt, ok := fv.Type().(*types.Pointer)
+		if !ok {
+			continue
+		}
+		if namedOf(pt.Elem()) == "Body" {
+			if _, isPtr := pt.Elem().(*types.Pointer); !isPtr {
+				bodyFV = fv
+			}
+		}
+		if p2, ok := pt.Elem().(*types.Pointer); ok && namedOf(p2.Elem()) == "BucketDocument" {
+			existingFV = fv
+		}
+	}
+	if bodyFV == nil || existingFV == nil {
+		r.Fail("C09-R6", "fn=importDoc$callback captured-import-input", c.Pos(lit.Pos()), "the captured body / bucket document of the import were not found")
+		return
+	}
+	casF := c.Field("db.Document", "Cas")
+	isDocCas := func(v ssa.Value) bool {
+		f, b := fieldRead(v)
+		return f != nil && f == casF && b == ssa.Value(docParam)
+	}
+	mismatch := EdgesWhere(lit, func(cond ssa.Value) (bool, bool) {
+		b, ok := cond.(*ssa.BinOp)
+		if !ok || (b.Op != token.NEQ && b.Op != token.EQL) {
+			return false, false
+		}
+		if isDocCas(b.X) || isDocCas(b.Y) {
+			return true, b.Op == token.NEQ
+		}
+		return false, false
+	})
+	var refresh, existingStores []ssa.Instruction
+	var loads []ssa.Instruction
+	EachInstr(lit, false, func(in ssa.Instruction) {
+		switch x := in.(type) {
+		case *ssa.Store:
+			if x.Addr == ssa.Value(bodyFV) && DependsOn(x.Val, func(v ssa.Value) bool {
+				cc, ok := v.(*ssa.Call)
+				return ok && c.CalleeName(cc) == "(*db.Document).Body" && len(cc.Call.Args) > 0 && cc.Call.Args[0] == ssa.Value(docParam)
+			}) {
+				refresh = append(refresh, x)
+			}
+			if x.Addr == ssa.Value(existingFV) {
+				existingStores = append(existingStores, x)
+			}
+		case *ssa.UnOp:
+			if ad, ok := loadOf(x); ok && ad == ssa.Value(bodyFV) {
+				loads = append(loads, x)
+			}
+		}
+	})
+	if len(mismatch) == 0 {
+		r.Fail("C09-R6", "fn=importDoc$callback cas-mismatch-test", c.Pos(lit.Pos()), "the callback no longer compares the loaded document's CAS with the CAS the import was started for")
+		return
+	}
+	// the on-demand edges inside the mismatch region: where the captured bucket document is re-assigned
+	okBody, okPair := len(refresh) > 0, len(existingStores) > 0
+	for _, st := range existingStores {
+		if !DominatedBy(lit, st, NewAvoid().AddEdge(mismatch...)) {
+			continue // initialisation elsewhere
+		}
+		// the body must have been refreshed on every path that reaches this re-assignment …
+		if !DominatedBy(lit, st, NewAvoid().AddInstr(refresh...)) {
+			// … or be refreshed after it before any further use
+			isLoad := func(in ssa.Instruction) bool {
+				for _, l := range loads {
+					if in == l {
+						return true
+					}
+				}
+				return false
+			}
+			if ReachAfter(st, isLoad, NewAvoid().AddInstr(refresh...)) != nil {
+				okBody = false
+			}
+		}
+	}
+	for _, rf := range refresh {
+		if !DominatedBy(lit, rf, NewAvoid().AddEdge(mismatch...)) {
+			okBody = false
+		}
+	}
+	r.Check("C09-R6", "fn=importDoc$callback retry refreshes=captured-body from=callback-document", c.Pos(lit.Pos()), okBody && okPair,
+		"the retried on-demand import sees the body of the document as it is now", "after losing the CAS race an on-demand import keeps using the body it was started with (the re-read body is not assigned to the captured variable): the import filter and sync function judge a superseded external write, which can be imported although the current write must be filtered out")
+	r.Check("C09-R6", "fn=importDoc$callback retry refreshes=captured-bucket-document", c.Pos(lit.Pos()), okPair, "the captured bucket document is re-initialised from the loaded document", "the retried import keeps the stale bucket document")
+}
